@@ -170,9 +170,6 @@ impl Storage {
                     let value = Value::Transaction(0, tx_index as TxIndex, &tx);
                     batch.put_kv(key, value).expect("batch put should be ok");
                 });
-            batch
-                .put_kv(genesis_block_key, genesis_hash_and_txs_hash.as_slice())
-                .expect("batch put should be ok");
             batch.commit().expect("batch commit should be ok");
             self.update_last_state(&U256::zero(), &block.header(), &[]);
             let genesis_block_filter_hash: Byte32 = {
@@ -190,6 +187,14 @@ impl Storage {
             self.update_max_check_point_index(0);
             self.update_check_points(0, &[genesis_block_filter_hash]);
             self.update_min_filtered_block_number(0);
+            // The genesis block key marks the storage as initialized, so it has to be the last
+            // write: if the process exits halfway, the initialization will be done again at the
+            // next start, instead of leaving a storage without last state or check points.
+            let mut batch = self.batch();
+            batch
+                .put_kv(genesis_block_key, genesis_hash_and_txs_hash.as_slice())
+                .expect("batch put should be ok");
+            batch.commit().expect("batch commit should be ok");
         }
     }
 
